@@ -12,6 +12,7 @@ CONSTANTS
   MaxPeer = 1
   MaxPush = 0
   Faults = {"sendErr", "recvErr", "peerClose"}
+  MaxFaults = 1
   RespShapes <- RS_sub1
   Abandon = FALSE
   MaxArr = 1
